@@ -249,7 +249,7 @@ class ConstantQubitNoiseModel(NoiseModel):
         return output[::-1] if self._prepend else output
 
     def _json_dict_(self) -> dict[str, Any]:
-        return protocols.obj_to_dict_helper(self, ['qubit_noise_gate'])
+        return {'qubit_noise_gate': self.qubit_noise_gate, 'prepend': self._prepend}
 
     def _has_unitary_(self) -> bool:
         return protocols.has_unitary(self.qubit_noise_gate)
